@@ -29,7 +29,7 @@ CHECKS["C16"] = dict(
     engine="XH",
     technique="symbolic execution (CrossHair + z3): solver-driven exploration of every TOML value shape through the real from_dict/validators, and of every fault choice through the real error funnels",
     text="CrossHair explores all paths of (a) the real ReuseTOML.from_dict with each key in turn taking every TOML type (nesting <= 2), (b) the real ClickObj.project with Project.from_directory raising each documented exception, (c) the real ProjectReport/ProjectSubsetReport.generate with FileReport.generate raising any of 11 exception classes per file; the postcondition is 'returns or raises a parse error naming the file' / 'click.UsageError' / 'a read-error entry and the run continues'. Counterexamples are replayed through ReuseTOML.from_toml on the tomlkit serialisation.",
-    note="After the solver has chosen a shape the document is concrete, so the solver's part is the exhaustive, feasibility-checked exploration of the shape space (stated bound: one malformed key at a time, nesting <= 2). Outside: third-party parsers on raw bytes. Two known findings (annotations not an array of tables; unhashable array item) are carved out by predicate and re-established from their witnesses on every run.",
+    note="After the solver has chosen a shape the document is concrete, so the solver's part is the exhaustive, feasibility-checked exploration of the shape space (stated bound: one malformed key at a time, nesting <= 2). Outside: third-party parsers on raw bytes. The two defects this check found (annotations not an array of tables; unhashable array item) are repaired in /repo (fix: commit); no carve-out remains.",
 )
 
 CHECKS["C04"] = dict(
